@@ -5,7 +5,7 @@ W=/tmp/wt-confirm
 [ -d "$W" ] || git -C /repo worktree add -q "$W" HEAD
 git -C "$W" checkout -q --detach "$(git -C /repo rev-parse HEAD)"
 for D in "$@"; do
-  git -C "$W" checkout -q -- . ; git -C "$W" clean -fdq -e target
+  git -C "$W" reset -q --hard HEAD ; git -C "$W" clean -fdq -e target
   R="$D/confirm.txt"; : > "$R"
   if git -C "$W" apply --3way "$D/patch.diff" >/dev/null 2>&1 || git -C "$W" apply "$D/patch.diff" >/dev/null 2>&1; then echo "applies=yes" >> "$R"; else echo "applies=no" >> "$R"; echo "$D applies=no"; continue; fi
   git -C "$W" diff > "$D/patch.rebased.diff"
@@ -14,9 +14,9 @@ for D in "$@"; do
   echo "tests_rc=$trc fail_lines=$fails" >> "$R"
   (timeout 900 sh "$D/demo.sh" "$W" </dev/null > "$D/demo.patched.log" 2>&1); drc=$?
   echo "demo_patched_rc=$drc" >> "$R"
-  git -C "$W" checkout -q -- . ; git -C "$W" clean -fdq -e target
+  git -C "$W" reset -q --hard HEAD ; git -C "$W" clean -fdq -e target
   (timeout 900 sh "$D/demo.sh" "$W" </dev/null > "$D/demo.clean.log" 2>&1); crc=$?
   echo "demo_clean_rc=$crc" >> "$R"
   echo "$D applies=yes tests_rc=$trc fail_lines=$fails demo_patched_rc=$drc demo_clean_rc=$crc"
 done
-git -C "$W" checkout -q -- .
+git -C "$W" reset -q --hard HEAD
